@@ -43,6 +43,16 @@ impl BigInt
     }
 
 
+    /// Whether both the value and the declared size are the same.
+    /// (The `==` operator compares values only, like the language's
+    /// own `==` does: `0x00 == 0`.)
+    pub fn is_identical(&self, other: &BigInt) -> bool
+    {
+        self == other &&
+            self.size == other.size
+    }
+
+
     pub fn set_bit(&mut self, index: usize, value: bool)
     {
         self.bigint.set_bit(index.try_into().unwrap(), value)
